@@ -365,3 +365,113 @@ def built_ok(uni, pool, pre_links, pre_unis, members, pairs, linktype):
             ok = ok and (x._universes == pre_unis[pool.index(x)])
     ok = ok and (len(newlinks) == len(pairs))
     return ok
+
+
+# ---------------------------------------------------------------------------
+# C03: relational step specifications (frame property).  ``pool`` is the list of
+# vertices, ``plinks`` the list of pool links; pre_l[i] / pre_e[j] are copies of
+# their ordered lists taken before the call.
+def without(xs, x):
+    out = []
+    for y in xs:
+        if not (y is x):
+            out.append(y)
+    return out
+
+
+def joins(ends, a, b):
+    if len(ends) != 2:
+        return False
+    return ((ends[0] is a) and (ends[1] is b)) or ((ends[0] is b) and (ends[1] is a))
+
+
+def frame_links_ok(plinks, pre_e, except_links):
+    """every pool link not in except_links has the same ordered ends as before"""
+    ok = True
+    j = 0
+    while j < len(plinks):
+        if not (plinks[j] in except_links):
+            ok = ok and (plinks[j]._vertices == pre_e[j])
+        j = j + 1
+    return ok
+
+
+def spec_new_edge(pool, plinks, pre_l, pre_e, new, x, y, cls):
+    """a new link joining x and y was created: appended once per distinct non-None end, nothing else changed"""
+    ok = (type(new) is cls) and (new._vertices == [x, y]) and not (new in plinks)
+    i = 0
+    while i < len(pool):
+        v = pool[i]
+        if (v is x) or (v is y):
+            ok = ok and (v._links == pre_l[i] + [new])
+        else:
+            ok = ok and (v._links == pre_l[i])
+        i = i + 1
+    return ok and frame_links_ok(plinks, pre_e, [])
+
+
+def spec_set_end(pool, plinks, pre_l, pre_e, l, which, x):
+    """l.v1 = x (which == 0) / l.v2 = x (which == 1) on a link that had two ends"""
+    j = index_of(plinks, l)
+    old = pre_e[j][which]
+    keep = pre_e[j][1 - which]
+    want_ends = list(pre_e[j])
+    want_ends[which] = x
+    ok = (l._vertices == want_ends)
+    i = 0
+    while i < len(pool):
+        v = pool[i]
+        if v is x:
+            if l in pre_l[i]:
+                # already listed: still listed exactly once; its position is not fixed by the statement
+                ok = ok and (without(v._links, l) == without(pre_l[i], l)) and (count_is(v._links, l) == 1)
+            else:
+                ok = ok and (v._links == pre_l[i] + [l])
+        elif (v is old) and not (v is keep):
+            # the previous vertex is detached, because it is no longer an end
+            ok = ok and (v._links == without(pre_l[i], l))
+        else:
+            ok = ok and (v._links == pre_l[i])
+        i = i + 1
+    return ok and frame_links_ok(plinks, pre_e, [l])
+
+
+def spec_unchanged(pool, plinks, pre_l, pre_e):
+    ok = frame_links_ok(plinks, pre_e, [])
+    i = 0
+    while i < len(pool):
+        ok = ok and (pool[i]._links == pre_l[i])
+        i = i + 1
+    return ok
+
+
+def spec_unlink(pool, plinks, pre_l, pre_e, a, b, destroy, result):
+    joining = []
+    j = 0
+    while j < len(plinks):
+        if joins(pre_e[j], a, b) and (plinks[j] in pre_l[index_of(pool, a)]):
+            joining.append(plinks[j])
+        j = j + 1
+    ok = True
+    for l in joining:
+        ok = ok and (l._vertices == [])
+    i = 0
+    while i < len(pool):
+        v = pool[i]
+        if (v is a) or (v is b):
+            want = pre_l[i]
+            for l in joining:
+                want = without(want, l)
+            ok = ok and (v._links == want)
+        else:
+            ok = ok and (v._links == pre_l[i])
+        i = i + 1
+    ok = ok and frame_links_ok(plinks, pre_e, joining)
+    if destroy:
+        ok = ok and (result is None)
+    else:
+        ok = ok and (result is not None) and (len(result) == len(joining))
+        if result is not None:
+            for l in joining:
+                ok = ok and (l in result)
+    return ok
